@@ -932,7 +932,8 @@ namespace avel {
 
         auto offset = copysign(vec8x32f{1.0f}, v);
         auto should_offset = abs(frac) >= vec8x32f{0.5f};
-        auto ret = whole + keep(should_offset, offset);
+        // Adding +0.0 would turn a -0.0 into +0.0; the result always has the sign of the input
+        auto ret = copysign(whole + keep(should_offset, offset), v);
 
         return ret;
     }
